@@ -3,7 +3,7 @@
 # scratch worktree /tmp/wt/scratch (at /repo HEAD) and, when it is confirmed, stores it
 # under /verif/seeded/<PROP>-<mK>/ and runs the named checks (default: PROP) against it.
 P=$1; M=$2; shift 2; CHECKS=${@:-$P}
-W=/tmp/wt/scratch; SRC=/tmp/wt/$P/mutants
+W=${HW:-/tmp/wt/scratch}; SRC=/tmp/wt/$P/mutants; TMPD=$W.tmp; mkdir -p $TMPD
 cd $W || exit 2
 git checkout -q -- . ; git clean -qfd -e src/quantity/version.py >/dev/null
 log() { echo "[$P-$M] $*"; }
@@ -11,11 +11,11 @@ if ! git apply --check $SRC/$M.diff 2>/dev/null; then
   if ! git apply --check -3 $SRC/$M.diff 2>/dev/null; then log "PATCH-DOES-NOT-APPLY"; exit 3; fi
 fi
 DEMO="env DECIMALFP_FORCE_PYTHON_IMPL=1 PYTHONPATH=$W/src /venv/bin/python $SRC/${M}_demo.py"
-$DEMO >/tmp/wt/demo_clean.out 2>&1; rc0=$?
+$DEMO >$TMPD/demo_clean.out 2>&1; rc0=$?
 git apply $SRC/$M.diff 2>/dev/null || git apply -3 $SRC/$M.diff
-git diff > /tmp/wt/cur.diff
+git diff > $TMPD/cur.diff
 T=$(PYTHONPATH=$W/src timeout 900 /venv/bin/python -m pytest -q -p no:cacheprovider --timeout=900 tests 2>&1 | tail -1)
-$DEMO >/tmp/wt/demo_mut.out 2>&1; rc1=$?
+$DEMO >$TMPD/demo_mut.out 2>&1; rc1=$?
 log "demo-clean=$rc0 demo-mutant=$rc1 tests: $T"
 ok=1
 [ $rc0 -eq 0 ] || ok=0; [ $rc1 -eq 1 ] || ok=0
@@ -32,8 +32,8 @@ for c in $CHECKS; do
 done
 if [ $ok -eq 1 ]; then
   D=/verif/seeded/$P-$M; mkdir -p $D
-  cp /tmp/wt/cur.diff $D/patch.diff; cp $SRC/${M}_demo.py $D/demo.py; cp $SRC/$M.md $D/notes.md
-  tail -5 /tmp/wt/demo_mut.out > $D/demo_output.txt
+  cp $TMPD/cur.diff $D/patch.diff; cp $SRC/${M}_demo.py $D/demo.py; cp $SRC/$M.md $D/notes.md
+  tail -5 $TMPD/demo_mut.out > $D/demo_output.txt
   echo "$det" > $D/.det
   log "CONFIRMED -> $D ($det)"
 else
